@@ -1890,8 +1890,10 @@ impl<'a, 'b, W: Write> Serializer for &'a mut YamlSerializer<'b, W> {
         // If this variant follows a list dash, indent two levels under the dash (one for the element, one for the mapping).
         if let Some(d) = dash_depth {
             depth_next = d + 2;
-            self.pending_inline_map = false;
         }
+        // The fields start on lines of their own: a "stay on the line" hint meant for this node
+        // (set after a dash or for a complex key) must not reach their values.
+        self.pending_inline_map = false;
         Ok(StructVariantSer {
             ser: self,
             depth: depth_next,
